@@ -38,7 +38,7 @@ def run_chunk_bounds(case, acc, order):
             nontrivial = overlap > 0 and n > chunk
             try:
                 with core.time_limit(5):
-                    cb = list(itertools.islice(chunk_bounds(n, chunk, overlap=overlap) if overlap
+                    cb = list(itertools.islice(chunk_bounds(n, chunk, overlap=overlap) if (overlap or n % 2)
                                                else chunk_bounds(n, chunk), 4 * n + 8))
             except (Exception, core.CaseTimeout) as e:
                 acc.step(nontrivial, 'cb:exception')
